@@ -605,6 +605,68 @@ fn all_sweeps(o: &mut Out, threads: usize) {
     nan_sweep(o, "u16", &|x| IntoStimulus::<u16>::into_stimulus(x) as u32, 65535);
 }
 
+// ------------------------------------------------------------------------------------------ more colour forms
+// into_format / from_format of the colour types with a hue (float to float: the hue goes through FromAngle, the other
+// components through FromStimulus - both are the plain float conversion) and of Lms, and the `From` impls between
+// Rgb / Rgba with u8, f32 and f64 components.  Recorded as "fmt" events: out must equal the component-wise conversion.
+fn more_forms(o: &mut Out, g: &mut Gen, only: Option<&Value>) {
+    use palette::{Hsl, Hsv, Hwb, Okhsl, Okhsv, Okhwb};
+    use palette::lms::{matrix::VonKries, Lms};
+    fn emit<A: Fmt, B: Fmt + FromStimulus<A>>(o: &mut Out, ty: &str, via: &str, xs: &[A], r: Result<Vec<B>, String>) {
+        let cw: Result<Vec<B>, String> = xs.iter().map(|&x| conv_from::<A, B>(x)).collect();
+        let mut v = json!({"ev": "fmt", "ty": ty, "via": via, "from": A::NAME, "to": B::NAME, "in": ex_arr(xs), "panic": 0});
+        match (r, cw) {
+            (Ok(out), Ok(cw)) => { v["out"] = ex_arr(&out); v["cw"] = ex_arr(&cw); }
+            (r, cw) => { v["out"] = json!([]); v["cw"] = json!([]); v["panic"] = json!(1); v["msg"] = json!(r.err().or(cw.err()).unwrap_or_default()); }
+        }
+        o.ev("fmt", None, v);
+    }
+    let n = if only.is_some() { 1 } else { 4 * g.plan.fmt_n };
+    macro_rules! pick { ($A:ty, $k:expr) => {{
+        match only {
+            Some(e) => e["in"].as_array().unwrap().iter().map(|j| <$A as Fmt>::dec(j)).collect::<Vec<$A>>(),
+            None => (0..$k).map(|i| if i == 0 { g.rng.range(-400.0, 800.0) as $A } else { match g.rng.below(5) { 0 => 0.0 as $A, 1 => 1.0 as $A, 2 => g.rng.range(-0.5, 1.5) as $A, _ => g.rng.unit() as $A } }).collect::<Vec<$A>>(),
+        }
+    }}; }
+    macro_rules! want { ($ty:expr, $via:expr, $A:ty, $B:ty) => {
+        only.map_or(true, |e| e["ty"] == $ty && e["via"] == $via && e["from"] == <$A as Ex>::NAME && e["to"] == <$B as Ex>::NAME)
+    }; }
+    macro_rules! hue3 { ($name:expr, $A:ty, $B:ty, $mk:expr, $into:expr, $from:expr, $out:expr) => {
+        if want!($name, "into", $A, $B) { for _ in 0..n { let xs = pick!($A, 3); emit::<$A, $B>(o, $name, "into", &xs, catch(|| { let d = $into($mk(&xs)); $out(d) })); } }
+        if want!($name, "from", $A, $B) { for _ in 0..n { let xs = pick!($A, 3); emit::<$A, $B>(o, $name, "from", &xs, catch(|| { let d = $from($mk(&xs)); $out(d) })); } }
+    }; }
+    macro_rules! floats { ($A:ty, $B:ty) => {
+        hue3!("Hsv", $A, $B, |x: &[$A]| Hsv::<Srgb, $A>::new(x[0], x[1], x[2]), |c: Hsv<Srgb, $A>| c.into_format::<$B>(), |c| Hsv::<Srgb, $B>::from_format(c), |d: Hsv<Srgb, $B>| vec![d.hue.into_inner(), d.saturation, d.value]);
+        hue3!("Hsl", $A, $B, |x: &[$A]| Hsl::<Srgb, $A>::new(x[0], x[1], x[2]), |c: Hsl<Srgb, $A>| c.into_format::<$B>(), |c| Hsl::<Srgb, $B>::from_format(c), |d: Hsl<Srgb, $B>| vec![d.hue.into_inner(), d.saturation, d.lightness]);
+        hue3!("Hwb", $A, $B, |x: &[$A]| Hwb::<Srgb, $A>::new(x[0], x[1], x[2]), |c: Hwb<Srgb, $A>| c.into_format::<$B>(), |c| Hwb::<Srgb, $B>::from_format(c), |d: Hwb<Srgb, $B>| vec![d.hue.into_inner(), d.whiteness, d.blackness]);
+        hue3!("Okhsv", $A, $B, |x: &[$A]| Okhsv::<$A>::new(x[0], x[1], x[2]), |c: Okhsv<$A>| c.into_format::<$B>(), |c: Okhsv<$A>| c.into_format::<$B>(), |d: Okhsv<$B>| vec![d.hue.into_inner(), d.saturation, d.value]);
+        hue3!("Okhsl", $A, $B, |x: &[$A]| Okhsl::<$A>::new(x[0], x[1], x[2]), |c: Okhsl<$A>| c.into_format::<$B>(), |c| Okhsl::<$B>::from_format(c), |d: Okhsl<$B>| vec![d.hue.into_inner(), d.saturation, d.lightness]);
+        hue3!("Okhwb", $A, $B, |x: &[$A]| Okhwb::<$A>::new(x[0], x[1], x[2]), |c: Okhwb<$A>| c.into_format::<$B>(), |c: Okhwb<$A>| c.into_format::<$B>(), |d: Okhwb<$B>| vec![d.hue.into_inner(), d.whiteness, d.blackness]);
+        hue3!("Lms", $A, $B, |x: &[$A]| Lms::<VonKries, $A>::new(x[0], x[1], x[2]), |c: Lms<VonKries, $A>| c.into_format::<$B>(), |c| Lms::<VonKries, $B>::from_format(c), |d: Lms<VonKries, $B>| vec![d.long, d.medium, d.short]);
+    }; }
+    floats!(f32, f64);
+    floats!(f64, f32);
+    floats!(f32, f32);
+    floats!(f64, f64);
+    // From between component types of Rgb / Rgba
+    macro_rules! froms { ($A:ty, $B:ty, $gen:expr) => {
+        if want!("Rgb", "From", $A, $B) { for _ in 0..n {
+            let xs: Vec<$A> = match only { Some(e) => e["in"].as_array().unwrap().iter().map(|j| <$A as Fmt>::dec(j)).collect(), None => (0..3).map(|_| $gen(&mut *g)).collect() };
+            emit::<$A, $B>(o, "Rgb", "From", &xs, catch(|| { let d: Rgb<Srgb, $B> = Rgb::<Srgb, $A>::new(xs[0], xs[1], xs[2]).into(); vec![d.red, d.green, d.blue] }));
+        } }
+        if want!("Rgba", "From", $A, $B) { for _ in 0..n {
+            let xs: Vec<$A> = match only { Some(e) => e["in"].as_array().unwrap().iter().map(|j| <$A as Fmt>::dec(j)).collect(), None => (0..4).map(|_| $gen(&mut *g)).collect() };
+            emit::<$A, $B>(o, "Rgba", "From", &xs, catch(|| { let d: Alpha<Rgb<Srgb, $B>, $B> = Alpha { color: Rgb::<Srgb, $A>::new(xs[0], xs[1], xs[2]), alpha: xs[3] }.into(); vec![d.color.red, d.color.green, d.color.blue, d.alpha] }));
+        } }
+    }; }
+    froms!(u8, f32, |g: &mut Gen| g.rng.below(256) as u8);
+    froms!(u8, f64, |g: &mut Gen| g.rng.below(256) as u8);
+    froms!(f32, u8, |g: &mut Gen| g.rng.range(-0.25, 1.25) as f32);
+    froms!(f64, u8, |g: &mut Gen| g.rng.range(-0.25, 1.25));
+    froms!(f32, f64, |g: &mut Gen| g.rng.range(-0.25, 1.25) as f32);
+    froms!(f64, f32, |g: &mut Gen| g.rng.range(-0.25, 1.25));
+}
+
 // ------------------------------------------------------------------------------------------ main
 
 fn find<'a>(reg: &'a [PairOps], from: &str, to: &str) -> &'a PairOps {
@@ -627,6 +689,11 @@ fn main() {
             "stim" => (find(&reg, &s("from"), &s("to")).one_stim)(&mut o, &e["in"]),
             "pair" => (find(&reg, &s("from"), &s("to")).one_pair)(&mut o, &e["in1"], &e["in2"]),
             "rt" => (find(&reg, &s("a"), &s("b")).one_rt)(&mut o, &e["in"]),
+            "fmt" if s("via") == "From" || !["Rgb", "Rgba", "Luma", "Lumaa"].contains(&s("ty").as_str()) => {
+                let plan = Plan { thorough: false, rand_unit: 1, rand_bits: 1, k255_other: 1, k65535: 1, kwide: 1, u16_stride: 1, rand_uint: 1, fmt_n: 1 };
+                let mut g = Gen { plan, rng: Sm64::new(1) };
+                more_forms(&mut o, &mut g, Some(&e));
+            }
             "fmt" => {
                 let shape = ["Rgb", "Rgba", "Luma", "Lumaa"].iter().position(|t| *t == s("ty")).expect("ty");
                 (find(&reg, &s("from"), &s("to")).one_fmt)(&mut o, shape, &s("via"), &e["in"]);
@@ -673,6 +740,7 @@ fn main() {
         let mut g = Gen { plan, rng: Sm64::new(seed_from_env()) };
         if !flag("--sweep-only") {
             for p in &reg { (p.bulk)(&mut o, &mut g); }
+            more_forms(&mut o, &mut g, None);
         }
         if flag("--sweep") || flag("--sweep-only") { all_sweeps(&mut o, threads); }
     }
